@@ -964,6 +964,15 @@ class AdapterRegistry(BaseAdapterRegistry):
         super()._setBases(bases)
 
     def changed(self, originally_changed):
+        if (
+            originally_changed is not self and
+            '__bases__' in self.__dict__
+        ):
+            # A registry above us changed. If that was a change of its
+            # ``__bases__``, the resolution order we computed when our
+            # own ``__bases__`` were set is out of date.
+            self.ro = ro.ro(self)
+
         super().changed(originally_changed)
 
         for sub in self._v_subregistries.keys():
@@ -971,7 +980,19 @@ class AdapterRegistry(BaseAdapterRegistry):
 
 
 class VerifyingAdapterLookup(AdapterLookupBase, VerifyingBase):
-    pass
+
+    def changed(self, originally_changed):
+        registry = self._registry
+        if '__bases__' in registry.__dict__:
+            # Verifying registries get no notifications. If a base
+            # registry was given new ``__bases__`` since our registry's
+            # own ``__bases__`` were set, the resolution order computed
+            # back then is out of date, and so is the list of registries
+            # to verify. This must be done on every change, not only
+            # when ``_verify`` noticed a new generation, because the
+            # generations are snapshotted again below.
+            registry.ro = ro.ro(registry)
+        super().changed(originally_changed)
 
 
 @implementer(IAdapterRegistry)
